@@ -17,9 +17,9 @@ def campaign(c):
     c.rule = RULE
     kinds = ['tcp', 'udp', 'unicast', 'broadcast', 'dnshost', 'icmp', 'frag', 'tunnel', 'datagram', 'tunbc']
     n = 120 if c.quick else 2500
-    for i in range(n):
+    for i in range(n + 2):
         seed = c.rng.fork('c18-%d' % i)
-        k = [kinds[i % len(kinds)]]
+        k = [kinds[i % len(kinds)]] if i < n else ['non-emitting']
         r1 = core.Rng(seed.s); r2 = core.Rng(seed.s)
         _, sf = netscen.build(r1, False, k, c.quick)
         _, sr = netscen.build(r2, True, k, c.quick)
